@@ -245,9 +245,9 @@ static void ds_llist_case(vh_rng_t *rng)
 {
   int     nops = vh_chance(rng, 1, 8) ? vh_range(rng, 200, 1200) : vh_range(rng, 4, 120);
   int     bias = vh_range(rng, 0, 3); /* 0 balanced, 1 grow, 2 move-heavy, 3 queue (insert last / remove first) */
-  /* half of the cases anchor inserts only on the head (before) / tail (after), which is the path
-   * that goes through insert_first/insert_last; the other half anchors anywhere */
-  int     anchor_ends_only = vh_chance(rng, 1, 2);
+  /* three quarters of the cases anchor inserts only on the head (before) / tail (after), which is
+   * the path that goes through insert_first/insert_last; the rest anchors anywhere */
+  int     anchor_ends_only = vh_chance(rng, 3, 4);
   int     i, l;
   static const char *const opname[] = { "?",       "insert_first",  "insert_last",    "insert_before",
                                         "insert_after", "node_idx", "claim",          "node_destroy",
